@@ -189,6 +189,33 @@ def c19_ts_unrepresentable(iso):
     return {"violates": not ok, "detail": None if ok else f"timestamp {iso} (no UTC form within years 1..9999): {outcome}, read back {back}"}
 
 
+def c19_stdout():
+    """an Avro container written to standard output by a child process that ends the writer with close() alone"""
+    import subprocess
+    import sys
+
+    code = (
+        "from flow.record import RecordDescriptor\n"
+        "from flow.record.adapter.avro import AvroWriter\n"
+        "D = RecordDescriptor('c19/t', [('string', 's'), ('varint', 'n')])\n"
+        "w = AvroWriter('-')\n"
+        "for i in range(3):\n"
+        "    w.write(D(s='r%d' % i, n=i))\n"
+        "w.close()\n"
+    )
+    p = subprocess.run([sys.executable, "-c", code], capture_output=True, env=dict(os.environ))
+    import io
+
+    import fastavro
+
+    try:
+        back = [r["s"] for r in fastavro.reader(io.BytesIO(p.stdout))]
+    except Exception as e:
+        back = f"reading raised {type(e).__name__}: {e} (child exit {p.returncode}, {len(p.stdout)} bytes)"
+    ok = back == ["r0", "r1", "r2"]
+    return {"violates": not ok, "detail": None if ok else f"an Avro container written to standard output and closed holds {back}"}
+
+
 def c19_mixed(same_name=False):
     from flow.record import RecordDescriptor
 
@@ -249,4 +276,4 @@ def c19_sweep(seed=0, n=80):
     return {"violates": False, "cases": cases}
 
 
-CALLS = {"c19_value": c19_value, "c19_schema": c19_schema, "c19_refuse": c19_refuse, "c19_mixed": c19_mixed, "c19_carry_on": c19_carry_on, "c19_ts_unrepresentable": c19_ts_unrepresentable, "c19_sweep": c19_sweep}
+CALLS = {"c19_stdout": c19_stdout, "c19_value": c19_value, "c19_schema": c19_schema, "c19_refuse": c19_refuse, "c19_mixed": c19_mixed, "c19_carry_on": c19_carry_on, "c19_ts_unrepresentable": c19_ts_unrepresentable, "c19_sweep": c19_sweep}
